@@ -1051,8 +1051,15 @@ func (x *g) genResponses(sv *spec.Service, m *spec.Method) {
 							}
 							switch {
 							case !clean:
-							case len(rest) > 0 && x.chance(1, 2):
-								tagged.Body = "attr:" + rest[x.r.Intn(len(rest))].Name
+							case len(rest) > 0 && x.chance(1, 2) && rest[0].Type.Kind != spec.Union:
+								// (Body("attr") naming a OneOf attribute is a listed goa defect: trigger body-is-union)
+								pick := rest[0]
+								for _, b := range rest {
+									if b.Type.Kind != spec.Union && x.chance(1, 2) {
+										pick = b
+									}
+								}
+								tagged.Body = "attr:" + pick.Name
 								x.s.AddFeature("tagged-response-explicit-body", "response-body-attr")
 							default:
 								tagged.Body = "empty"
